@@ -22,4 +22,23 @@ MUTANTS = {
   ('rbt_post_prev', 'src/rbt.c', 'if (node && node->left && node->left != leaf)', 'if (node && node->left && node->left == leaf)'),
   ('avl_prev_descend', 'src/avl.c', 'node = node->left;\n        while (node->right) { node = node->right; }', 'node = node->left;'),
  ],
+ 'C04': [
+  ('vec_remove_full_len', 'src/vec.c', 'a_swap(p, q, (a_size)(ptr - p));', 'a_swap(p, q, (a_size)(ptr - q));'),
+  ('vec_sort_fore_i', 'src/vec.c', 'if (i > 0)\n            {\n                a_byte *const cur = (a_byte *)ctx->ptr_ + ctx->siz_ * i;\n                a_copy(end, ptr, ctx->siz_);', 'if (i > 1)\n            {\n                a_byte *const cur = (a_byte *)ctx->ptr_ + ctx->siz_ * i;\n                a_copy(end, ptr, ctx->siz_);'),
+  ('buf_store_bound', 'src/buf.c', 'if (ctx->num_ + num <= ctx->mem_)', 'if (ctx->num_ + num <= ctx->mem_ + 1)'),
+  ('buf_sort_back_full_stop', 'src/buf.c', '} while (ptr != buf);', '} while (ptr - ctx->siz_ != buf);'),
+  ('vec_push_sort_tie', 'src/vec.c', 'if (cmp(cur, key) > 0) { r = m; }\n            else { i = m + 1; }\n        }\n        if (i < idx)\n        {\n            a_byte *const cur = (a_byte *)ctx->ptr_ + ctx->siz_ * i;\n            a_move(cur + ctx->siz_, cur, (a_size)(ptr - cur));\n            ptr = cur;', 'if (cmp(cur, key) > 0) { r = m; }\n            else { i = m + 1; }\n        }\n        if (i < idx)\n        {\n            a_byte *const cur = (a_byte *)ctx->ptr_ + ctx->siz_ * i;\n            a_move(cur + ctx->siz_, cur, (a_size)(ptr - cur) - ctx->siz_);\n            ptr = cur;'),
+  ('vec_erase_mid_count', 'src/vec.c', 'a_move(p, p + ctx->siz_ * num, (ctx->num_ - n) * ctx->siz_);\n        ctx->num_ -= num;', 'a_move(p, p + ctx->siz_ * num, (ctx->num_ - n - 1) * ctx->siz_);\n        ctx->num_ -= num;'),
+  ('vec_setz_mem', 'src/vec.c', 'ctx->mem_ /= siz;', 'ctx->mem_ = (ctx->mem_ + siz - 1) / siz;'),
+ ],
+ 'C05': [
+  ('slist_del_tail', 'include/a/slist.h', 'if (!node->next) { ctx->tail = prev; }', ''),
+  ('slist_mov_tail', 'include/a/slist.h', 'if (!at->next) { to->tail = ctx->tail; }', 'if (!at->next) { to->tail = node; }'),
+  ('list_swap_order', 'include/a/list.h', 'a_list *const head = tail2->next, *const tail = head2->prev;\n    a_list_add_(tail1->next, head1->prev, head2, tail2);\n    a_list_add_(head, tail, head1, tail1);', 'a_list_add_(tail1->next, head1->prev, head2, tail2);\n    a_list_add_(tail2->next, head2->prev, head1, tail1);'),
+  ('list_rot_prev', 'include/a/list.h', 'a_list *const node = ctx->next;\n    a_list_del_(node, node);\n    a_list_add_(ctx, ctx->prev, node, node);', 'a_list *const node = ctx->next;\n    a_list_del_(node, node);\n    a_list_add_(ctx->next, ctx, node, node);'),
+  ('que_recycle_no_dec', 'src/que.c', 'node = ctx->ptr_[--ctx->cur_];', 'node = ctx->ptr_[ctx->cur_ - 1];\n        if (ctx->cur_ > 1) { --ctx->cur_; }'),
+  ('que_insert_after', 'src/que.c', 'a_list_add_prev(it, node);\n                    break;', 'a_list_add_next(it, node);\n                    break;'),
+  ('que_sort_back_tie', 'src/que.c', 'if (cmp(at + 1, it + 1) <= 0) { break; }\n            at = at->prev;\n        } while (at != &ctx->head_);\n        if (at != it->prev)\n        {\n            at = at->next;', 'if (cmp(at + 1, it + 1) <= 0) { break; }\n            at = at->prev;\n        } while (at != &ctx->head_);\n        if (at != it->prev && at != &ctx->head_)\n        {\n            at = at->next;'),
+  ('que_at_neg_offbyone', 'src/que.c', 'if (--cur == idx) { return it + 1; }', 'if (cur-- == idx) { return it + 1; }'),
+ ],
 }
